@@ -186,7 +186,74 @@ func c18counter(c *core.Ctx) {
 	}
 }
 
+// c18seqSweep: ALL sequences of up to 4 calls from a small alphabet (zero value
+// included, as first write too) on a fresh register of each representation, judged by
+// the sequential register model - the first-write and zero-value corners that random
+// concurrent workloads over unique non-zero values never visit.
+func c18seqSweep(c *core.Ctx) {
+	alphabet := []pin{{Op: opLoad}, {Op: opStore, Arg: 0}, {Op: opStore, Arg: 1}, {Op: opStore, Arg: 2}, {Op: opSwap, Arg: 0}, {Op: opSwap, Arg: 1},
+		{Op: opCAS, Arg: 0, Arg2: 1}, {Op: opCAS, Arg: 1, Arg2: 0}, {Op: opCAS, Arg: 1, Arg2: 2}, {Op: opCAS, Arg: 2, Arg2: 2}, {Op: opCAS, Arg: 0, Arg2: 0}}
+	name := func(i pin) string {
+		switch i.Op {
+		case opLoad:
+			return "Load()"
+		case opStore:
+			return fmt.Sprintf("Store(%d)", i.Arg)
+		case opSwap:
+			return fmt.Sprintf("Swap(%d)", i.Arg)
+		}
+		return fmt.Sprintf("CompareAndSwap(%d,%d)", i.Arg, i.Arg2)
+	}
+	n := len(alphabet)
+	seqs := 0
+	for kind := 0; kind < 3; kind++ {
+		for L := 1; L <= 4; L++ {
+			total := 1
+			for i := 0; i < L; i++ {
+				total *= n
+			}
+			for code := 0; code < total; code++ {
+				reg := newReg(kind)
+				var st any = regUnset
+				var hist []string
+				x := code
+				for k := 0; k < L; k++ {
+					in := alphabet[x%n]
+					x /= n
+					var out pout
+					wf := true
+					switch in.Op {
+					case opLoad:
+						out.Val, wf = reg.load()
+					case opStore:
+						reg.store(in.Arg)
+					case opSwap:
+						out.Val, wf = reg.swap(in.Arg)
+					case opCAS:
+						out.Ok = reg.cas(in.Arg, in.Arg2)
+					}
+					hist = append(hist, fmt.Sprintf("%s -> (%d,%v)", name(in), out.Val, out.Ok))
+					ok, next := regStep(st, in, out)
+					if !ok || !wf {
+						c.Violate("seq:register-model["+reg.name+"]", fmt.Sprintf("on a fresh AtomicValue[%s] (0 stands for the zero value) the sequential calls %v do not behave as one register: the last result is wrong", reg.name, hist), map[string]any{"calls": hist})
+						return
+					}
+					st = next
+				}
+				seqs++
+			}
+		}
+	}
+	c.Count("reg_sequential_sweeps_completed", 1)
+	c.Count("reg_sequential_sequences", int64(seqs))
+	c.NonTrivial(core.Mix(c.Seed, 1818))
+}
+
 func c18reg(c *core.Ctx, record bool) {
+	if record && c.Index%100 == 7 {
+		c18seqSweep(c)
+		return
+	}
 	if c.Index%5 == 4 {
 		c18counter(c)
 		return
